@@ -1082,6 +1082,9 @@ func c11Depth(tier, mode string, cfg c11Cfg) int {
 	file := cfg.Kind != "calloc"
 	if tier == "quick" {
 		if file {
+			if mode == "slices" {
+				return 4
+			}
 			return 3
 		}
 		return 6
@@ -1139,7 +1142,7 @@ func c11(tier string, r *ev.Run, replay string) {
 	}
 
 	budget := 40 * time.Second
-	workers := 1
+	workers := min(runtime.NumCPU(), 8) // the temp-file configurations are disk-bound: they overlap well with the in-memory searches
 	sortDepth := 5
 	allKeysDepth := 4 // primary configuration: every {0,1,2} key assignment for states up to this depth
 	plan := c11ChunkPlan{
@@ -1162,9 +1165,9 @@ func c11(tier string, r *ev.Run, replay string) {
 	}
 	deadline := time.Now().Add(budget)
 
-	// Job order. quick (one worker): the cheap in-memory searches and the chunk family first, the
+	// Job order: with one worker the cheap in-memory searches and the chunk family first, the
 	// disk-bound temp-file configurations last, so that a slow disk can only cut those short (the
-	// run then reports exhaustive=false and names what was cut). thorough: longest jobs first.
+	// run then reports exhaustive=false and names what was cut). Several workers: longest jobs first.
 	type job func(dir string) c11Res
 	var callocJobs, fileJobs, chunkJobs, jobs []job
 	cfgs := c11Configs()
